@@ -77,3 +77,35 @@ def failing_event(trace):
         if b.endswith('@Err') or b.endswith('@None'):
             return b.rsplit('@', 1)[0]
     return None
+
+
+def core_write_operands(prog, rep, rid):
+    """Worterbuch::set / cset hand the request to the store unchanged: Store::insert_plain(parse_segments(key), value, force) and
+    Store::insert_cas(parse_segments(key), value, version, force) - the version check and the force flag are the caller's, the core
+    neither relaxes nor rewrites them (followers and embedded clients re-run the same check through this function)"""
+    from ..prov import Bindings
+    from ..ir import callee
+    from .common import loc
+    crate = prog.crate(WB)
+    for fname, sfn, ops in (('set', 'insert_plain', ('value', 'force')), ('cset', 'insert_cas', ('value', 'version', 'force'))):
+        f = crate.fn(f'{CORE}::{fname}')
+        b = Bindings(crate, f)
+        calls = crate.calls(f, lambda c: c == f'{STORE}::{sfn}')
+        problems = []
+        if len(calls) != 1:
+            problems.append(f'{len(calls)} calls of Store::{sfn}')
+        else:
+            a = calls[0][0]['args']
+            po = b.origins(a[1])
+            if not po or not all('parse_segments' in x for x in po):
+                problems.append(f'path <- {sorted(po)}')
+            for i, name in enumerate(ops):
+                o = b.origins(a[2 + i])
+                if o != {f'param({name})'}:
+                    problems.append(f'{name} <- {sorted(o)}')
+        if problems:
+            rep.violation(rid, f'Worterbuch::{fname}:operands', f.loc, f'Store::{sfn} is not called with the request\'s own operands: ' + '; '.join(problems),
+                          key=f'{rid}/{fname}/operands/' + '|'.join(p_.split(' <-')[0] for p_ in problems),
+                          expected=f'Store::{sfn}(parse_segments(key), ' + ', '.join(ops) + ')')
+        else:
+            rep.ok(rid, f'Worterbuch::{fname}:operands', loc(f, calls[0][0]), f'Store::{sfn}(parse_segments(key), ' + ', '.join(ops) + ') - unchanged')
